@@ -6,12 +6,12 @@ from props.C03 import edge_points
 
 ID = "C19"
 LEVEL = "proof"
-MODULES = ["H3Proofs.Props.C19", "H3Proofs.Props.C19Shape"]
+MODULES = ["H3Proofs.Props.C19", "H3Proofs.Props.C19Shape", "H3Proofs.Props.C19Pent"]
 THEOREMS = "auto"
 ASSUMPTIONS = ["all-integer model (h3ToFaceIjk, substrate vertices, overage adjustment, output set) tied by exact "
                "correspondence; the geometric reading (faces the interior intersects) is evaluated with an oracle "
                "that assigns interior sample points of cellToBoundary to the nearest face centre"]
-NOT_PROVED = ["faces = faces intersected by the interior (geometric reading; convexity argument not formalised)", "a pentagon always reports five faces / a hexagon one or two: exercised on all 192 pentagons and the edge cells by correspondence + evaluator, not a theorem"]
+NOT_PROVED = ["faces = faces intersected by the interior (geometric reading; convexity argument not formalised)", "a hexagon reports one or two faces: at most two by the output-shape theorem; that the second is reported exactly when the interior crosses an icosahedron edge is the geometric reading above (every pentagon reports exactly five distinct faces: C19Pent.pentagon_five_faces, all 192 pentagons enumerated in the kernel)"]
 EXPLANATION = ("output-shape theorem (on success: exactly maxFaceCount slots, pairwise distinct faces 0..19, then -1 padding; every input) / table theorems; exact correspondence of getIcosahedronFaces and its integer helpers; "
                "evaluator: reported set = nearest-face set of interior sample points, on complete coarse resolutions, "
                "all pentagons, and cells along all 30 icosahedron edges at every resolution")
